@@ -64,6 +64,14 @@ theorem noDotSegments_guard (p : Str) : NoDotSegments (if mem 46 p = true then n
   · rename_i h
     exact noDotSegments_of_mem_false (by simpa using h)
 
+/-- `with_path` since fix 7cae68c: the `"." in path` guard followed by `normalize_path` of the ROOTED path -/
+theorem noDotSegments_guard_rooted (p : Str) :
+    NoDotSegments (if mem 46 p = true then normalizePath (rooted p) else p) := by
+  split
+  · exact noDotSegments_normalizePath (rooted p)
+  · rename_i h
+    exact noDotSegments_of_mem_false (by simpa using h)
+
 theorem noDotSegments_cons_slash {p : Str} (h : NoDotSegments p) : NoDotSegments (47 :: p) := by
   intro s hs
   simp only [splitOn, ↓reduceIte, List.mem_cons] at hs
